@@ -631,7 +631,15 @@ func storedValueDiscipline(c *core.Ctx, comparisons bool) {
 				return true
 			}
 			if g != nil && strings.HasPrefix(cn(g), "clamp") {
-				return core.AllSources(call.Call.Args[1], func(x ssa.Value) bool { cc, ok := x.(*ssa.Call); return ok && core.Callee(cc) == conv })
+				vi := 1
+				if _, vp := clampFunc(p, cn(g)); vp != nil {
+					for k, q := range g.Params {
+						if q == vp {
+							vi = k
+						}
+					}
+				}
+				return core.AllSources(call.Call.Args[vi], func(x ssa.Value) bool { cc, ok := x.(*ssa.Call); return ok && core.Callee(cc) == conv })
 			}
 			return false
 		})
